@@ -309,16 +309,18 @@ func genBatchSeq(r *rng, thorough bool, emit func(FlowScenario)) {
 			}
 		}
 	}
-	// single value / nil payloads and the empty batch
+	// single value / nil payloads and the empty batch (also with post returning the empty action)
 	for _, shape := range []string{"single", "nil", "results", "anys"} {
 		for _, conc := range []int{0, 1, 3} {
-			t.next, t.errN = r.intn(30), r.intn(20)
-			cfg := BatchCfg{Budget: 2, Fb: "pass", Conc: conc, ExecS: "res", HasPost: true, Shape: shape, Build: "builder"}
-			n := 1
-			if shape == "nil" || shape == "results" {
-				n = 0
+			for _, post := range []string{"=done", "="} {
+				t.next, t.errN = r.intn(30), r.intn(20)
+				cfg := BatchCfg{Budget: 2, Fb: "pass", Conc: conc, ExecS: "res", HasPost: true, Shape: shape, Build: "builder"}
+				n := 1
+				if shape == "nil" || shape == "results" {
+					n = 0
+				}
+				emit(mk(cfg, randBatchScript(t, 0, 0, &cfg, n, 30, post)))
 			}
-			emit(mk(cfg, randBatchScript(t, 0, 0, &cfg, n, 30, "=done")))
 		}
 	}
 }
